@@ -268,6 +268,9 @@ class Summaries:
                 c = Call(f, r[2])
                 if TRY_BRANCH.search(q) or ADAPT.search(q):
                     return sources(f, pa.root(f, c.args[0]), out, depth + 1)
+                if re.search(r"FromResidual<.*>>::from_residual$|FromResidual::from_residual$", q) and c.args:
+                    # the Err of an inlined helper's `?`: it passes on the residual of the branch it was taken from
+                    return sources(f, pa.root(f, c.args[0]), out, depth + 1)
                 if q == Q_EXEC and c.args and const_state_of_other(pa, f, c.b, pa.root(f, c.args[0])) == "Running":
                     self.h_sites.add((f.q, c.b))
                     return True  # hypothesis H (C02.R3h): exec of a Running (resumed) task cannot fail
